@@ -52,8 +52,14 @@ fn degenerate(rng: &mut Rng) -> (Problem, &'static str) {
             let n = rng.usize(1, 4);
             let mut cones = vec![];
             for _ in 0..rng.usize(2, 7) {
-                let c = match rng.usize(0, 6) {
+                // empty cones of EVERY kind that has a dimension argument, in every position: first, last, after a
+                // collapsible cone (zero / nonnegative) and after one that is not (second-order, exponential, power)
+                let c = match rng.usize(0, 11) {
                     0 => ConeT::ZeroConeT(0),
+                    7 | 8 => ConeT::SecondOrderConeT(0),
+                    9 => ConeT::SecondOrderConeT(3),
+                    10 => ConeT::ExponentialConeT(),
+                    11 => ConeT::PowerConeT(rng.range(0.1, 0.9)),
                     1 => ConeT::NonnegativeConeT(0),
                     2 => ConeT::SecondOrderConeT(1),
                     3 => ConeT::NonnegativeConeT(1),
